@@ -130,11 +130,11 @@ type Map struct {
 }
 
 type Chan struct {
-	buf    []Value
-	cap    int
-	closed bool
-	elem   types.Type
-	id     int
+	buf         []Value
+	cap         int
+	closed      bool
+	elem        types.Type
+	id          int
 	pendingSend int
 	taken       int
 	waitingRecv int
